@@ -27,6 +27,10 @@ Definition wit_size (w : list bytes) : N :=
 (* tapscript signature-operations budget (taprootExecutionCtx): 50 + witness size *)
 Definition tap_budget (w : list bytes) : Z := (50 + Z.of_N (wit_size w))%Z.
 
+(* OP_HASH160 / address.Hash160 *)
+Definition hash160_of (sha256 ripemd160 : bytes -> bytes) : bytes -> bytes :=
+  fun x => ripemd160 (sha256 x).
+
 Section Spend.
   Variable hash160 : bytes -> bytes.
   Variable sigcheck : bytes -> bytes -> sigres.
